@@ -19,14 +19,16 @@ TRUSTED = ["ocaml/driver/c20.ml: truth-table bookkeeping between the implementat
 
 def streams(tier, seed):
     if tier == "quick":
-        return [dict(tag="main-debug", count=6000, seed=seed, profile="debug"),
-                dict(tag="main-release", count=6000, seed=seed + 1, profile="release")]
+        return [dict(tag="main-debug", count=12000, seed=seed, profile="debug"),
+                dict(tag="main-release", count=12000, seed=seed + 1, profile="release"),
+                dict(tag="symbols-only", count=6000, seed=seed + 2, profile="release", extra={"odd-den": 0, "max-steps": 22})]
     out = []
     for k in range(6):
-        out.append(dict(tag="debug%d" % k, count=40000, seed=seed * 1000 + k, profile="debug"))
-        out.append(dict(tag="release%d" % k, count=40000, seed=seed * 1000 + 500 + k, profile="release"))
-    out.append(dict(tag="few-terminals", count=60000, seed=seed + 7, profile="release", extra={"max-terms": 3, "max-steps": 20}))
-    out.append(dict(tag="symbols-only", count=60000, seed=seed + 8, profile="debug", extra={"odd-den": 0, "max-steps": 20}))
+        out.append(dict(tag="debug%d" % k, count=100000, seed=seed * 1000 + k, profile="debug"))
+        out.append(dict(tag="release%d" % k, count=100000, seed=seed * 1000 + 500 + k, profile="release"))
+    out.append(dict(tag="few-terminals", count=150000, seed=seed + 7, profile="release", extra={"max-terms": 3, "max-steps": 24}))
+    out.append(dict(tag="symbols-only-debug", count=150000, seed=seed + 8, profile="debug", extra={"odd-den": 0, "max-steps": 24}))
+    out.append(dict(tag="symbols-only-release", count=150000, seed=seed + 9, profile="release", extra={"odd-den": 0, "max-steps": 24}))
     return out
 
 
@@ -35,6 +37,20 @@ def search_streams(tier, seed, diffs):
 
 
 MANIFEST = dict(
-    level_text="(filled in at the end)",
-    level_note="(filled in at the end)",
+    level_text=("Coq theorems over ALL histories of new/apply_bin_op (any operator, any BDD node order)/apply_ite/coalesce/import_into_guard/"
+                "expr_to_guard, all valuations, both build profiles: C20_functional_inv (every reachable summary of the code AS IT IS selects "
+                "exactly one value per valuation: some guard true, all true entries agree), C20_den_commutes_{bin_op,ite,coalesce,import} "
+                "(selected value of the result = operation on the selected values of the arguments), C20_guard_equiv(+_skeleton) "
+                "(a returned guard is true iff the boolean expression evaluates to 1 under Spec/Eval.ebv), C20_guards_canonical, C20_no_panic. "
+                "The literal partition claim (guards pairwise disjoint) is REFUTED for the current code (C20_partition_inv_refuted: coalesce on entry "
+                "values [A,B,B,A]) and PROVED for the code with the delete list sorted (C20_partition_inv_fixed, C20_partition_ops, "
+                "C20_coalesce_outside_known); totality of expr_to_guard is refuted as well (C20_guard_total_refuted, C20_debug_asserts_refuted) and "
+                "characterised exactly (C20_guard_total_on_guardable). Tie to /repo: extracted model vs. the real ValueSummary<ExprRef>/GuardCtx through "
+                "cfg(patronus_verif) hooks after every step of every generated history, in the debug and the release profile; independent oracle over all 2^n valuations."),
+    level_note=("Four genuine defects are recorded as known findings and re-observed on every run (coalesce overlap; expr_to_guard panics on any terminal "
+                "with a non-boolean child, e.g. a == b over bv8; two debug assertions that fire on legitimate inputs). The partition theorem is about the "
+                "REPAIRED coalesce (one-line fix: sort the delete list) - for the current code only the weaker functional invariant is a theorem. "
+                "Trusted: Coq kernel; hand-written model tied by differential execution only (generator-bounded: <= 10 terminals, <= 26 steps); the "
+                "boolean_expression crate is modelled as canonical ROBDDs, not verified; bottom_up_multi_pat modelled at result level; BDD node order "
+                "is a model parameter read from the implementation in the tie."),
 )
